@@ -108,19 +108,13 @@ pub fn judge(case: &Case, out: &RunOut) -> Vec<(String, String)> {
         .iter()
         .filter(|e| e.nr == libc::SYS_fsopen || e.nr == libc::SYS_open_tree || (e.nr == libc::SYS_openat && e.path.as_deref() == Some(b"/proc")))
         .count();
-    // attempts at one constructor count once: fsopen -> open_tree -> open is one handle
-    let ctor_runs = {
-        let mut n = 0;
-        let mut in_ctor = false;
-        for e in &evs {
-            let is_ctor = e.nr == libc::SYS_fsopen || e.nr == libc::SYS_open_tree || e.nr == libc::SYS_fsconfig || e.nr == libc::SYS_fsmount || (e.nr == libc::SYS_openat && e.path.as_deref() == Some(b"/proc"));
-            if is_ctor && !in_ctor {
-                n += 1;
-            }
-            in_ctor = is_ctor;
-        }
-        n
-    };
+    // The supervisor does not see results, so "a handle was created" is
+    // recognised by what every successful construction does last: the
+    // is-it-masked probe faccessat2(handle, "stat"). (fsmount only runs after a
+    // successful fsopen+fsconfig and is counted as a cross-check.)
+    let probes = evs.iter().filter(|e| (e.nr == libc::SYS_faccessat2 || e.nr == libc::SYS_faccessat) && e.path.as_deref() == Some(b"stat")).count();
+    let fsmounts = evs.iter().filter(|e| e.nr == libc::SYS_fsmount && e.answer == crate::sup::Answer::Continue).count();
+    let ctor_runs = probes.max(fsmounts);
     let _ = handles;
     if ctor_runs > MAX_HANDLES {
         v.push(("unbounded-handles".into(), format!("one lookup created {ctor_runs} procfs handles (bound {MAX_HANDLES}); {} trapped calls", evs.len())));
